@@ -13,6 +13,8 @@ func Main(args []string) int {
 		return 2
 	}
 	switch args[0] {
+	case "prop":
+		return cmdProp(args[1:])
 	case "check":
 		return cmdCheck(args[1:])
 	case "hist":
